@@ -264,7 +264,9 @@ func runC17(r *Run) {
 		case 1:
 			l = limiter.NewBlockingLimiter(dl, 5*ms, nopLogger{})
 		case 2:
-			l = limiter.NewDeadlineLimiter(dl, time.Now().Add(20*ms), nopLogger{})
+			// deadline ahead, already reached, or the zero time: the refusal path after the deadline is shared state too
+			dlAt := []time.Time{time.Now().Add(20 * ms), time.Now().Add(20 * ms), time.Now(), {}}[t.Intn(4, "deadline-at")]
+			l = limiter.NewDeadlineLimiter(dl, dlAt, nopLogger{})
 		case 3:
 			l = limiter.NewQueueBlockingLimiterFromConfig(dl, limiter.QueueLimiterConfig{MaxBacklogSize: 3, MaxBacklogTimeout: 5 * ms, MetricRegistry: qr})
 		}
